@@ -7,7 +7,7 @@ From Coq Require Import ZArith List Bool.
 From Verif Require Import A64.A64Tmpl A64.A64Sem.
 From VerifGen Require Import IsaA64Db.
 From Verif Require Import Codec.OffsetModel Labels.LabelsModel Labels.LabelsProofs Labels.LabelsExact Labels.LabelsAbs
-  Labels.FlatModel Labels.FlatLemmas Labels.FlatProofs Labels.SparseModel Labels.SparseProofs Labels.A64Dec Labels.A64DbTie Labels.A64RefMeaning Labels.A64RefDb Labels.A64EndToEnd Labels.ResolveComplete.
+  Labels.FlatModel Labels.FlatLemmas Labels.FlatProofs Labels.SparseModel Labels.SparseProofs Labels.A64Dec Labels.A64DbTie Labels.A64RefMeaning Labels.A64RefDb Labels.A64EndToEnd Labels.ResolveComplete Labels.ResolvedStable.
 From Verif Require Import X86.X86Model Reloc.X86Meaning Labels.X86RefMeaning Labels.X86EndToEnd.
 Import ListNotations.
 Local Open Scope Z_scope.
@@ -800,3 +800,25 @@ Theorem C03_pending_image_untouched_witness :
   In O (ids (pending s)) /\ read_word (nth O (f_secs f) []) 2 1 = 0 /\ unresolved s = 1.
 Proof. exact pending_image_untouched_witness. Qed.
 Print Assumptions C03_pending_image_untouched_witness.
+
+(* ---- round 8: resolution is PERMANENT (sequence-level lift): a reference that is resolved in some reachable state stays resolved through
+   any further operations, its ghost log (site, format, addend, label, emitted word) unchanged; step level: an operation never makes an
+   existing reference pending again ---- *)
+Theorem C03_step_pending_sub : forall s o id,
+  In id (ids (pending (fst (step s o)))) -> In id (ids (pending s)) \/ id = length (refs s).
+Proof. exact step_pending_sub. Qed.
+Print Assumptions C03_step_pending_sub.
+
+Theorem C03_resolved_stays_resolved : forall ops1 ops2 id r,
+  nth_error (refs (run init ops1)) id = Some r -> ~ In id (ids (pending (run init ops1))) ->
+  exists r', nth_error (refs (run init (ops1 ++ ops2))) id = Some r' /\ same_ghost r' r /\ ~ In id (ids (pending (run init (ops1 ++ ops2)))).
+Proof. exact resolved_stays_resolved_run. Qed.
+Print Assumptions C03_resolved_stays_resolved.
+
+Theorem C03_resolved_stays_resolved_witness :
+  let ops1 := [ONewLabel; ORaw [144]; ORef K_Rel8 (-1) O [235] 0 []; OGap 10; OBind O] in
+  let ops2 := [ONewLabel; ONewSection; OSection 1%nat; ORef K_Rel32 (-4) 1%nat [233] 0 []; OGap 300; OResolve [0; 64]] in
+  exists r, nth_error (refs (run init ops1)) O = Some r /\ ~ In O (ids (pending (run init ops1))) /\
+            In 1%nat (ids (pending (run init (ops1 ++ ops2)))) /\ ~ In O (ids (pending (run init (ops1 ++ ops2)))).
+Proof. exact resolved_stays_resolved_witness. Qed.
+Print Assumptions C03_resolved_stays_resolved_witness.
